@@ -6,9 +6,6 @@ From LR Require Export lib.Base model.Paging.
 (* one observed page: events as (tags, ts, msg, fields), Pos parsed and sorted by source, ReqId <> 0 *)
 Definition opage := (list (bytes * Z * bytes * bytes) * posl * bool)%type.
 
-Inductive case :=
-| KRun (st0 : store) (q : qfilter) (start : pos_t) (steps : list pstep) (observed : list opage).
-
 Definition tags_of (st : store) (i : nat) : bytes :=
   match nth_error st i with Some p => p_tags p | None => [] end.
 
@@ -24,15 +21,73 @@ Definition page_of (st : store) (r : result) : option opage :=
   | _ => None
   end.
 
-Definition opage_eqb (a b : opage) : bool :=
+(* Positions of a RANGE query are compared modulo records outside the range: the implementation's
+   partition.JIterator skips such records through the time-index windows of the chunks (not modelled, C02),
+   so its position may be ahead of the model's by records that the filter would drop anyway. *)
+Definition has_range (q : qfilter) : bool := match q with FRange _ _ | FBoth _ _ _ => true | _ => false end.
+Definition in_range (q : qfilter) (e : event) : bool :=
+  match q with
+  | FRange lo hi | FBoth _ lo hi => (lo <=? e_ts e)%Z && (e_ts e <=? hi)%Z
+  | _ => true
+  end.
+Definition pos_equiv (q : qfilter) (j : journal) (pm po : N * N) : bool :=
+  if has_range q then
+    let a := flat j pm in let b := flat j po in
+    (a <=? b)%nat && forallb (fun e => negb (in_range q e)) (firstn (b - a) (skipn a (recs j)))
+  else pos_eqb pm po.
+
+Fixpoint posl_equiv (q : qfilter) (st : store) (a b : posl) : bool :=
+  match st, a, b with
+  | [], [], [] => true
+  | p :: st', (s1, p1) :: a', (s2, p2) :: b' =>
+      bytes_eqb s1 s2 && bytes_eqb s1 (p_src p) && pos_equiv q (p_jrnl p) p1 p2 && posl_equiv q st' a' b'
+  | _, _, _ => false
+  end.
+
+Definition opage_eqb (q : qfilter) (st : store) (a b : opage) : bool :=
   let '(a1, a2, a3) := a in let '(b1, b2, b3) := b in
-  list_eqb ev4_eqb a1 b1 && posl_eqb a2 b2 && Bool.eqb a3 b3.
+  list_eqb ev4_eqb a1 b1 && posl_equiv q st a2 b2 && Bool.eqb a3 b3.
+
+(* the store each page is read from *)
+Fixpoint stores (st : store) (steps : list pstep) : list store :=
+  match steps with
+  | [] => []
+  | s :: tl => let st' := apply_appends st (s_apps s) in st' :: stores st' tl
+  end.
+
+Fixpoint pages_eqb (q : qfilter) (sts : list store) (ms : list (option opage)) (os : list opage) : bool :=
+  match sts, ms, os with
+  | [], [], [] => true
+  | st :: sts', Some m :: ms', o :: os' => opage_eqb q st m o && pages_eqb q sts' ms' os'
+  | _, _, _ => false
+  end.
+
+Definition check_run (st0 : store) (q : qfilter) (start : pos_t) (steps : list pstep) (observed : list opage) : bool :=
+  let rs := run_from repo_clears_fields (has_filter q) (flt_of q) choose_min st0 start steps in
+  pages_eqb q (stores st0 steps) (map (page_of st0) rs) observed.
+
+(* a large single-partition store of generated events (timestamp 5000+i, message "k", no fields), given by its
+   chunk layout; pages are given as (index of the first event, number of events) *)
+Definition gen_ev (i : nat) : event := mkEv (5000 + Z.of_nat i) [x6b] [].
+Fixpoint gen_chunks (off : nat) (l : list (N * N)) : journal :=
+  match l with
+  | [] => []
+  | (id, n) :: tl => mkCh id (map gen_ev (seq off (N.to_nat n))) :: gen_chunks (off + N.to_nat n) tl
+  end.
+
+Inductive case :=
+| KRun (st0 : store) (q : qfilter) (start : pos_t) (steps : list pstep) (observed : list opage)
+| KBulk (src tags : bytes) (chunks : list (N * N)) (steps : list pstep) (observed : list (N * N * posl * bool)).
 
 Definition check (c : case) : bool :=
   match c with
-  | KRun st0 q start steps observed =>
-      let rs := run_from repo_clears_fields (has_filter q) (flt_of q) choose_min st0 start steps in
-      list_eqb (option_eqb opage_eqb) (map (page_of st0) rs) (map Some observed)
+  | KRun st0 q start steps observed => check_run st0 q start steps observed
+  | KBulk src tags chunks steps observed =>
+      let st0 := [mkPart src tags (gen_chunks 0 chunks)] in
+      let obs := map (fun o : N * N * posl * bool =>
+                        let '(first, n, pl, idf) := o in
+                        (map (fun i => (tags, e_ts (gen_ev i), e_msg (gen_ev i), e_flds (gen_ev i))) (seq (N.to_nat first) (N.to_nat n)), pl, idf)) observed in
+      check_run st0 FNone PHead steps obs
   end.
 
 Definition mismatches (l : list case) : list nat := mismatches_of check l.
